@@ -1775,13 +1775,15 @@ func (node OrderBy) walkSubtree(visit Visit) error {
 
 // Format formats the node.
 func (node *Order) Format(buf *TrackedBuffer) {
-	if node, ok := node.Expr.(*NullVal); ok {
-		buf.Myprintf("%v", node)
+	// "order by null" and "order by rand()" are printed without the default direction,
+	// an explicit non-default direction must not be lost
+	if expr, ok := node.Expr.(*NullVal); ok && node.Direction == AscScr {
+		buf.Myprintf("%v", expr)
 		return
 	}
-	if node, ok := node.Expr.(*FuncExpr); ok {
-		if node.Name.Lowered() == "rand" {
-			buf.Myprintf("%v", node)
+	if expr, ok := node.Expr.(*FuncExpr); ok && node.Direction == AscScr {
+		if expr.Name.Lowered() == "rand" {
+			buf.Myprintf("%v", expr)
 			return
 		}
 	}
